@@ -317,8 +317,8 @@ def main(tier):
     t0 = time.time()
     progs = load_progs()
     rep = common.Reporter(PID)
-    tmo = 1000 if tier == "quick" else 2400
-    deadline = t0 + (1500 if tier == "quick" else 3300)
+    tmo = 1800 if tier == "quick" else 3000
+    deadline = t0 + (2700 if tier == "quick" else 5400)
     cfgs = CONFIGS[tier]
     results = list(common.fork_map(_cfg_worker, [(progs, c, tmo, deadline) for c in cfgs], min(len(cfgs), 4)))
     if "inconclusive" in results[0]:
